@@ -110,9 +110,27 @@ theorem C09_add_wrong_type_rejects (s : St) (refs : List Nat) : step s (.add .in
     with its incoming ids, the obstacle in the dict of its role, the network as THE network (so a ValueError is raised
     exactly when an id is in use). -/
 theorem C09_add_free_accepts (s : St) (o : Obj) (refs : List Nat) (h : Inv s) (hv : o ≠ .invalid)
+    (hon : ∀ r k on, o ≠ .obstacleOn r k on)
     (hn : (objIds o).Nodup) (hf : ∀ x ∈ objIds o, x ∉ allIds s) :
     (step s (.add o refs)).2 = .ok ∧ Contains (step s (.add o refs)).1 o :=
-  addObj_fresh s o refs h hv ((fresh_iff_allIds s h _).mpr ⟨hn, hf⟩)
+  addObj_fresh s o refs h hv hon ((fresh_iff_allIds s h _).mpr ⟨hn, hf⟩)
+
+/-- A static / dynamic obstacle that carries a lanelet assignment (`initial_shape_lanelet_ids`), with a free id: it is
+    stored and its id reserved exactly like an obstacle without assignment (same state), but the call then registers
+    it on its lanelets and raises AttributeError when one of them does not exist while the network has lanelets — an
+    operation that fails half-way.  The invariant holds afterwards all the same (C09_inv_step). -/
+theorem C09_add_obstacle_with_lanelets (s : St) (r : Role) (k : Nat) (on refs : List Nat) (hf : k ∉ allIds s) (h : Inv s) :
+    (step s (.add (.obstacleOn r k on) refs)).1 = (step s (.add (.obstacle r k) refs)).1 ∧
+    Contains (step s (.add (.obstacleOn r k on) refs)).1 (.obstacle r k) ∧
+    (step s (.add (.obstacleOn r k on) refs)).2
+      = if s.net.lanelets.isEmpty ∨ ∀ x ∈ on, x ∈ lids s.net then .ok else .err .attr := by
+  have hk : k ∉ s.idSet := fun hx => hf ((((inv_iff s).mp h).1.2 k).mp hx)
+  refine ⟨addObstacleOn_fst s r k on refs, ?_, ?_⟩
+  · show Contains (addObj s (.obstacleOn r k on) refs).1 _
+    rw [addObstacleOn_fst]
+    exact (addObj_fresh s (.obstacle r k) refs h (by simp) (by simp) ⟨by simp [objIds], by simpa [objIds] using hk⟩).2
+  · show (addObj s (.obstacleOn r k on) refs).2 = _
+    rw [addObstacleOn_snd, if_neg hk]
 
 /-- Frame of an accepted add (anything but a whole network): every object that was contained is still contained
     (`Keeps`: obstacles per role, lanelets by id, signs, lights, intersections with their incomings), the multiset of
@@ -177,7 +195,7 @@ theorem C09_gen_fresh_in_history (s : St) (h : Inv s) (pre : List Op) :
 theorem C09_remove_obstacle_then_add (s : St) (k : Nat) (h : Inv s) (hk : k ∈ obstIds s) (r : Role) (refs : List Nat) :
     (step s (.removeObstacle k)).2 = .ok ∧ (step (step s (.removeObstacle k)).1 (.add (.obstacle r k) refs)).2 = .ok := by
   obtain ⟨h1, h2⟩ := removeObstacle_frees s k h hk
-  exact ⟨h1, add_ok_of_free _ _ refs (removeObstacle_good s k h).1 (by simp) (by simp [objIds])
+  exact ⟨h1, add_ok_of_free _ _ refs (removeObstacle_good s k h).1 (by simp) (by simp) (by simp [objIds])
     (by simpa [objIds, step] using h2)⟩
 
 /-- list form of remove_obstacle (any list — ids that belong to no obstacle only produce a warning): the call returns,
@@ -189,25 +207,25 @@ theorem C09_remove_obstacle_list_then_add (s : St) (ks : List Nat) (h : Inv s) (
   have hi := (removeObstacles_good s ks h).1
   have hfree := removeObstacles_frees ks s h k hk ho
   exact ⟨removeObstacles_ok s ks h, fun hx => hfree (hi.mem_of_contained hx),
-    add_ok_of_free _ _ refs hi (by simp) (by simp [objIds]) (by simpa [objIds, step] using hfree)⟩
+    add_ok_of_free _ _ refs hi (by simp) (by simp) (by simp [objIds]) (by simpa [objIds, step] using hfree)⟩
 
 theorem C09_remove_sign_then_add (s : St) (k : Nat) (h : Inv s) (hk : k ∈ s.net.signs) (refs : List Nat) :
     (step s (.removeSign k)).2 = .ok ∧ (step (step s (.removeSign k)).1 (.add (.sign k) refs)).2 = .ok := by
   have hok := removeSign_ok s k h hk
-  exact ⟨hok, add_ok_of_free _ _ refs (removeSign_good s k h).1 (by simp) (by simp [objIds])
+  exact ⟨hok, add_ok_of_free _ _ refs (removeSign_good s k h).1 (by simp) (by simp) (by simp [objIds])
     (by simpa [objIds, step] using removeSign_frees s _ k (Prod.ext rfl hok))⟩
 
 theorem C09_remove_light_then_add (s : St) (k : Nat) (h : Inv s) (hk : k ∈ s.net.lights) (refs : List Nat) :
     (step s (.removeLight k)).2 = .ok ∧ (step (step s (.removeLight k)).1 (.add (.light k) refs)).2 = .ok := by
   have hok := removeLight_ok s k h hk
-  exact ⟨hok, add_ok_of_free _ _ refs (removeLight_good s k h).1 (by simp) (by simp [objIds])
+  exact ⟨hok, add_ok_of_free _ _ refs (removeLight_good s k h).1 (by simp) (by simp) (by simp [objIds])
     (by simpa [objIds, step] using removeLight_frees s _ k (Prod.ext rfl hok))⟩
 
 /-- single form of remove_intersection: id and incoming ids are free again -/
 theorem C09_remove_intersection_then_add (s : St) (i : Inter) (h : Inv s) (hi : i ∈ s.net.inters) (refs : List Nat) :
     (step s (.removeInter i)).2 = .ok ∧ (step (step s (.removeInter i)).1 (.add (.inter i) refs)).2 = .ok := by
   have hok := removeInter_ok s i h hi
-  refine ⟨hok, add_ok_of_free _ _ refs (removeInter_good s i h).1 (by simp) (h.interIds_nodup hi) ?_⟩
+  refine ⟨hok, add_ok_of_free _ _ refs (removeInter_good s i h).1 (by simp) (by simp) (h.interIds_nodup hi) ?_⟩
   exact removeInter_frees_contained s _ i h hi (Prod.ext rfl hok)
 
 /-- list form of remove_traffic_sign: contained, pairwise distinct signs — the call returns and each can be added again -/
@@ -217,7 +235,7 @@ theorem C09_remove_sign_list_then_add (s : St) (ks : List Nat) (h : Inv s) (hd :
     ∀ k ∈ ks, ∀ refs, (step (step s (.removeSigns ks)).1 (.add (.sign k) refs)).2 = .ok := by
   have hok := removeSigns_ok s ks h hd hc
   refine ⟨hok, fun k hk refs => ?_⟩
-  exact add_ok_of_free _ _ refs (removeSigns_good s ks h).1 (by simp) (by simp [objIds])
+  exact add_ok_of_free _ _ refs (removeSigns_good s ks h).1 (by simp) (by simp) (by simp [objIds])
     (by simpa [objIds, step] using removeSigns_frees s _ ks (Prod.ext rfl hok) k hk)
 
 theorem C09_remove_light_list_then_add (s : St) (ks : List Nat) (h : Inv s) (hd : ks.Nodup)
@@ -226,7 +244,7 @@ theorem C09_remove_light_list_then_add (s : St) (ks : List Nat) (h : Inv s) (hd 
     ∀ k ∈ ks, ∀ refs, (step (step s (.removeLights ks)).1 (.add (.light k) refs)).2 = .ok := by
   have hok := removeLights_ok s ks h hd hc
   refine ⟨hok, fun k hk refs => ?_⟩
-  exact add_ok_of_free _ _ refs (removeLights_good s ks h).1 (by simp) (by simp [objIds])
+  exact add_ok_of_free _ _ refs (removeLights_good s ks h).1 (by simp) (by simp) (by simp [objIds])
     (by simpa [objIds, step] using removeLights_frees s _ ks (Prod.ext rfl hok) k hk)
 
 /-- list form of remove_intersection (the form that leaked the incoming ids before the fix): contained, pairwise
@@ -237,7 +255,7 @@ theorem C09_remove_intersection_list_then_add (s : St) (is : List Inter) (h : In
     ∀ i ∈ is, ∀ refs, (step (step s (.removeInters is)).1 (.add (.inter i) refs)).2 = .ok := by
   have hok := removeInters_ok s is h hd hc
   refine ⟨hok, fun i hi refs => ?_⟩
-  exact add_ok_of_free _ _ refs (removeInters_good s is h).1 (by simp) (h.interIds_nodup (hc i hi))
+  exact add_ok_of_free _ _ refs (removeInters_good s is h).1 (by simp) (by simp) (h.interIds_nodup (hc i hi))
     (removeInters_frees is s _ h hc (Prod.ext rfl hok) i hi)
 
 /-- remove_lanelet (single form = one-element list, and list form) for contained lanelets with pairwise different ids:
@@ -273,13 +291,13 @@ theorem C09_remove_lanelet_then_add (s : St) (ls : List Lanelet) (refd : Bool) (
     constructor
     · rintro ⟨a, b⟩; exact ⟨a, fun ⟨r, c, d⟩ => b r (this.mpr ⟨a, c, d⟩)⟩
     · rintro ⟨a, b⟩; exact ⟨a, fun r hm => b ⟨r, (this.mp hm).2.1, (this.mp hm).2.2⟩⟩
-  · exact add_ok_of_free _ _ refs g.1 (by simp) (by simp [objIds]) (by simpa [objIds] using f1 l hl)
+  · exact add_ok_of_free _ _ refs g.1 (by simp) (by simp) (by simp [objIds]) (by simpa [objIds] using f1 l hl)
   · rcases g.2.signs k hk with q | q
     · exact absurd q hk'
-    · exact add_ok_of_free _ _ refs g.1 (by simp) (by simp [objIds]) (by simpa [objIds] using q)
+    · exact add_ok_of_free _ _ refs g.1 (by simp) (by simp) (by simp [objIds]) (by simpa [objIds] using q)
   · rcases g.2.lights k hk with q | q
     · exact absurd q hk'
-    · exact add_ok_of_free _ _ refs g.1 (by simp) (by simp [objIds]) (by simpa [objIds] using q)
+    · exact add_ok_of_free _ _ refs g.1 (by simp) (by simp) (by simp [objIds]) (by simpa [objIds] using q)
 
 /-- replace_lanelet_network: it returns exactly when the ids of the new network are pairwise distinct and none of them
     belongs to an obstacle — ids of the replaced network may be reused (otherwise ValueError); then the new network is
@@ -289,14 +307,15 @@ theorem C09_replace_network_then_add (s : St) (n : Net) (h : Inv s) :
     ((netIds n).Nodup ∧ (∀ k ∈ netIds n, k ∉ obstIds s) →
       (step s (.replaceNet n)).2 = .ok ∧ (step s (.replaceNet n)).1.net = n ∧ SameObst s (step s (.replaceNet n)).1 ∧
       (∀ x, x ∈ (step s (.replaceNet n)).1.idSet ↔ x ∈ netIds n ∨ x ∈ obstIds s) ∧
-      ∀ o refs, o ≠ .invalid → (objIds o).Nodup → (∀ x ∈ objIds o, x ∈ netIds s.net ∧ x ∉ netIds n) →
+      ∀ o refs, o ≠ .invalid → (∀ r k on, o ≠ .obstacleOn r k on) → (objIds o).Nodup →
+        (∀ x ∈ objIds o, x ∈ netIds s.net ∧ x ∉ netIds n) →
         (step (step s (.replaceNet n)).1 (.add o refs)).2 = .ok) ∧
     (¬ ((netIds n).Nodup ∧ ∀ k ∈ netIds n, k ∉ obstIds s) → (step s (.replaceNet n)).2 = .err .value) := by
   constructor
   · rintro ⟨hn, hf⟩
     obtain ⟨hok, hnet, hobst, hid⟩ := replaceNet_ok s n h hn hf
-    refine ⟨hok, hnet, hobst, hid, fun o refs hv hno hold => ?_⟩
-    exact add_ok_of_free _ _ refs (replaceNet_inv s n h) hv hno
+    refine ⟨hok, hnet, hobst, hid, fun o refs hv hon hno hold => ?_⟩
+    exact add_ok_of_free _ _ refs (replaceNet_inv s n h) hv hon hno
       (fun x hx => replaceNet_frees s _ n h (Prod.ext rfl hok) x (hold x hx).1 (hold x hx).2)
   · intro hnot
     have hok := erase_ok s h
@@ -307,6 +326,18 @@ theorem C09_replace_network_then_add (s : St) (n : Net) (h : Inv s) :
     rw [andThen_eq_of_ok hok]
     unfold addNetwork
     rw [markMany_used _ _ hnf]; rfl
+
+/-- erase_lanelet_network (public entry point of its own): it returns, the network is empty afterwards, the obstacles
+    are untouched, exactly the obstacle ids stay reserved, and every object whose ids belonged to the network can be added -/
+theorem C09_erase_network_then_add (s : St) (h : Inv s) :
+    (step s .eraseNet).2 = .ok ∧ (step s .eraseNet).1.net = {} ∧ SameObst s (step s .eraseNet).1 ∧
+    (∀ x, x ∈ (step s .eraseNet).1.idSet ↔ x ∈ obstIds s) ∧
+    ∀ o refs, o ≠ .invalid → (∀ r k on, o ≠ .obstacleOn r k on) → (objIds o).Nodup → (∀ x ∈ objIds o, x ∈ netIds s.net) →
+      (step (step s .eraseNet).1 (.add o refs)).2 = .ok := by
+  have hok := erase_ok s h
+  have he : erase s = ((erase s).1, .ok) := Prod.ext rfl hok
+  refine ⟨hok, erase_ok_net s _ he, erase_obst s, erase_idSet s h, fun o refs hv hon hn hold => ?_⟩
+  exact add_ok_of_free _ _ refs (erase_inv s h) hv hon hn (fun x hx => erase_frees s _ h he x (hold x hx))
 
 /-- add_objects(LaneletNetwork) replaces the network as well: the ids of the network it drops are free afterwards -/
 theorem C09_add_network_releases_old (s : St) (n : Net) (hok : (step s (.add (.network n) [])).2 = .ok)
